@@ -18,6 +18,7 @@ CONSTANTS
     Kinds,        \* what each caller may ask for: subset of ValueTypes \cup {"status"}
     MaxReplies,   \* number of replies the server sends
     UnknownId,    \* an id that was never allocated
+    AllowUnknown, \* TRUE: the server may use UnknownId (duplicates are always possible)
     CheckType,    \* TRUE: reply type is checked against the request (the code)
     FailAll       \* TRUE: a reply with an unknown id fails every outstanding request (the code)
 
@@ -73,7 +74,8 @@ Reply(i, t) ==
                           THEN [j \in Ids |-> IF j \in waiting THEN <<"badmsg">> ELSE outcome[j]]
                           ELSE outcome
 
-Next == \E i \in Ids \cup {UnknownId}, t \in ReplyTypes : Reply(i, t)
+Next == \E i \in Ids \cup (IF AllowUnknown THEN {UnknownId} ELSE {}), t \in ReplyTypes :
+            Reply(i, t)
 
 Spec == Init /\ [][Next]_vars
 
